@@ -47,9 +47,13 @@ def candidates(prop):
     return out
 
 
-def benign():
+def benign(prop):
+    """behaviour-preserving variants written against this property's anchors (the full cross product of all variants and all
+    properties is run by tools/regress.py, not on every thorough run)"""
     bdir = os.path.join(VERIF, "selftest", "benign")
-    return [(f, os.path.join(bdir, f)) for f in sorted(os.listdir(bdir))] if os.path.isdir(bdir) else []
+    if not os.path.isdir(bdir):
+        return []
+    return [(f, os.path.join(bdir, f)) for f in sorted(os.listdir(bdir)) if f.endswith((".diff", ".patch")) and f.startswith(prop + "-")]
 
 
 def run(props, repo, env):
@@ -71,7 +75,7 @@ def run(props, repo, env):
                 else:
                     res["missed"].append("%s:%s" % (kind, name))
                     print("SELFTEST-MISSED property=%s %s:%s (the checker did not report this change)" % (prop, kind, name))
-            for name, path in benign():
+            for name, path in benign(prop):
                 reset(scratch)
                 rc, out = sh("git apply %s" % path, cwd=scratch)
                 if rc != 0:
